@@ -67,6 +67,21 @@ CHECKS.update({
         "note": TRUST + " Soundness judged on critical points, not by SMT (exact when each fluent occurs once and divisors are constants); integrality not judged for big constants; fluents 0-ary.",
         "technique": "TLA+ interval semantics evaluated by TLC over TLC-enumerated expressions and operand pairs; recorded inferred types judged",
     },
+    "C19": {
+        "text": "Generated classical/numeric/temporal problems (with adversarial identifiers) are written by the real ANMLWriter and read back by the real ANMLReader; the re-read problem is renamed back with the writer's own name table. TLC judges: the reader must parse the writer's output; Bisim (same objects, initial state, applicability, successors, goal verdicts on all states reachable to a depth bound) for the instantaneous behaviour; AnmlRoundTrip!SameTemporalStructure (durations with openness, condition intervals, effect timings, timed effects/goals as normalised sets; expressions compared by value on sample states) and agreement of UPTimeSem!TimeVerdict on seeded plans for temporal problems.",
+        "note": M1NOTE + " The ANML text itself is not modelled; parse failures are keyed by the offending construct class computed from the original problem.",
+        "technique": "TLC bisimulation / temporal-structure comparison of the original and the re-read problem (Bisim, AnmlRoundTrip, UPTimeSem)",
+    },
+    "C21": {
+        "text": "PDDL domain/problem TEXTS are printed by the harness's own printer from generated problems in the common fragment, deliberately using surface forms the UP writer never emits (multi-typed object lists, :constants, nested and/or, either operand order, imply, multi-variable quantifiers, action costs), plus the shipped .pddl files both readers accept; both real readers parse each text; PddlReaders.tla classifies texts (outside the fragment / compare) and Bisim judges the two results: same objects, initial state, applicability, successors, goal verdicts, action costs and metric on all reachable states to a depth bound.",
+        "note": M1NOTE + " Only lower-casing of identifiers is applied as renaming. Texts the third-party reader rejects are outside the common fragment (tallied).",
+        "technique": "TLC bisimulation (Bisim) of the problems produced by the two readers from harness-printed PDDL texts",
+    },
+    "C23": {
+        "text": "ModelStore.tla: value-level invariant StoreOK (every value a stored expression can take lies in the target type's domain; defaults and initial values are constants) and a call layer with a type-level Verdict in {yes, no, unspec}; T1 checks Stored / RejectJustified / AcceptSafe / RejectUnchanged over every history of the case space. TLC enumerates the full cross product 13 storing calls x 7 target types x 24 values; each is performed on fresh objects in a fresh Environment with the model projected before and after; ModelStoreTrace judges accept = Verdict, reject => unchanged, stored = given.",
+        "note": TRUST + " Unspecified: numeric effect values whose bounds are not contained in the fluent's bounds, non-constant ActionInstance parameters of a compatible type.",
+        "technique": "TLA+ typed-store model (TLC) + exhaustive TLC-enumerated storing calls replayed on the real model classes and judged",
+    },
     "C20": {
         "text": "ProtoForms.tla defines the form space (numeric type forms, constants up to and beyond int64 via BigArith limbs, timepoint kinds x delays, interval openness, effect kinds, metric kinds, plan kinds, result kinds): TLC emits 657 minimal artefacts, one per combination; plus generated problems with plans/results and the bundled examples. Each goes through ProtobufWriter -> bytes -> ProtobufReader; ProtoJudge.tla decides NormUPJ(project(read(write(x)))) = NormUPJ(project(x)) by TLC value equality (bags where the model holds unordered collections), kind equality, and the implementation's own ==.",
         "note": TRUST + " Thinnest use of the technique (a codec has one transition): the specification contributes the exhaustive form space and the independent notion of equality. Scheduling problems, hierarchical plans and schedules are judged by == and kind only.",
